@@ -6,7 +6,9 @@
  *            heap contents) with scaled-down capacities (hook M4RI_VERIF_*), leak check at the end.
  */
 #if defined(H_POOL)
+#define log2_floor mzd_c_log2_floor /* mzd.c has its own static log2_floor; graycode.h (via m4ri.h below) another */
 #include <m4ri/mzd.c> /* the real translation unit, found through -I$REPO */
+#undef log2_floor
 #endif
 #include "verif.h"
 
@@ -113,6 +115,7 @@ void harness(void) {
 #if defined(H_MMC)
 /* arbitrary valid block cache: slot i holds either nothing (size 0) or a live block of size sz[i] */
 #include <m4ri/mmc.h>
+extern mmb_t m4ri_mmc_cache[__M4RI_MMC_NBLOCKS];
 #ifndef NB
 #define NB __M4RI_MMC_NBLOCKS
 #endif
